@@ -63,6 +63,9 @@ type Component struct {
 	// lifecycle events for the same session each allocate a fresh block.
 	actMu       sync.Mutex
 	activations map[string]struct{}
+	// cancelled holds sessions released while their activation's dataplane
+	// add was still in flight; the add's callback must then not commit.
+	cancelled map[string]struct{}
 
 	// Event queue: subscribers attach BEFORE the restore loop runs and
 	// queue events into pendingEvents; once restore completes drainQueue
@@ -544,9 +547,39 @@ func (c *Component) handlePBAActivate(poolName string, insideIP net.IP, vrfName 
 	c.dataplane.CGNATAddDelSubscriberMappingAsync(poolID, swIfIndex, insideIP,
 		insideVRF, mapping.OutsideIP, mapping.PortBlockStart, mapping.PortBlockEnd,
 		true, true, func(err error) {
+			if c.takeCancelled(sessionID) {
+				// The session was released while the add was in flight; the
+				// release already freed the block and its reverse entry.
+				if err == nil {
+					c.dataplane.CGNATAddDelSubscriberMappingAsync(poolID, swIfIndex, insideIP,
+						insideVRF, mapping.OutsideIP, mapping.PortBlockStart, mapping.PortBlockEnd,
+						false, false, func(error) {})
+				}
+				done()
+				return
+			}
 			if err != nil {
 				c.logger.Error("subscriber mapping failed, rolling back", "error", err)
+				for _, m := range c.pools.GetMappings(poolName, insideIP, insideVRF) {
+					c.reverse.Remove(m.OutsideIP, m.PortBlockStart)
+				}
 				c.pools.ReleaseBlocks(poolName, insideIP, insideVRF)
+				done()
+				return
+			}
+			// Other events may have run since the block was allocated: commit
+			// only a block the subscriber still holds.
+			held := false
+			for _, m := range c.pools.GetMappings(poolName, insideIP, insideVRF) {
+				if m.PortBlockStart == mapping.PortBlockStart && m.PortBlockEnd == mapping.PortBlockEnd &&
+					m.OutsideIP.Equal(mapping.OutsideIP) {
+					held = true
+					break
+				}
+			}
+			if !held {
+				c.logger.Warn("CGNAT activation completed for a block the subscriber no longer holds; not committed",
+					"session", sessionID, "inside", insideIP)
 				done()
 				return
 			}
@@ -560,6 +593,18 @@ func (c *Component) handlePBAActivate(poolName string, insideIP net.IP, vrfName 
 				"outside", fmt.Sprintf("%s:%d-%d", mapping.OutsideIP, mapping.PortBlockStart, mapping.PortBlockEnd),
 				"pool", poolName)
 		})
+}
+
+// takeCancelled reports, and forgets, that the session was released while its
+// activation was in flight.
+func (c *Component) takeCancelled(sessionID string) bool {
+	c.actMu.Lock()
+	defer c.actMu.Unlock()
+	if _, ok := c.cancelled[sessionID]; !ok {
+		return false
+	}
+	delete(c.cancelled, sessionID)
+	return true
 }
 
 // insideVRFID maps a session's VRF name to the table id used as the inside VRF
@@ -632,6 +677,15 @@ func (c *Component) tryRestoreSyncedMapping(sessionID string, swIfIndex uint32, 
 	c.dataplane.CGNATAddDelSubscriberMappingAsync(poolID, swIfIndex, mapping.InsideIP,
 		mapping.InsideVRFID, mapping.OutsideIP, mapping.PortBlockStart, mapping.PortBlockEnd,
 		true, true, func(err error) {
+			if c.takeCancelled(sessionID) {
+				if err == nil {
+					c.dataplane.CGNATAddDelSubscriberMappingAsync(poolID, swIfIndex, mapping.InsideIP,
+						mapping.InsideVRFID, mapping.OutsideIP, mapping.PortBlockStart, mapping.PortBlockEnd,
+						false, false, func(error) {})
+				}
+				done()
+				return
+			}
 			if err != nil {
 				c.logger.Error("restore synced mapping failed", "session", sessionID, "error", err)
 				// ReleaseBlocks frees every block of the subscriber, including
@@ -736,6 +790,17 @@ func (c *Component) handleSessionRelease(data *events.SessionLifecycleEvent) {
 
 	c.actMu.Lock()
 	poolName, ok := c.sessionPoolMap[data.SessionID]
+	if _, inflight := c.activations[data.SessionID]; inflight {
+		// Activation in flight: cancel it; what it allocated is released below.
+		if c.cancelled == nil {
+			c.cancelled = make(map[string]struct{})
+		}
+		c.cancelled[data.SessionID] = struct{}{}
+		if !ok {
+			poolName = c.pools.FindPoolForIP(insideIP, vrfName)
+			ok = poolName != ""
+		}
+	}
 	if !ok {
 		mapSize := len(c.sessionPoolMap)
 		c.actMu.Unlock()
